@@ -202,6 +202,9 @@ Definition rule_has_blank (r : rule) : bool :=
 Definition tm_ids (d : document) : list ustr := map t_id d.
 Definition normalise (d0 : document) : result (list rule) :=
   let d := prepare d0 in
+  (* no predicate-object map in the whole section: the parsing query binds no ?object_map and the code fails on the
+     missing column *)
+  if forallb (fun t => match t_poms t with [] => true | _ => false end) d then Err EKey else
   rdo base <- rmap_all (base_rules_of d) d;
   let nb := number_from 0 (concat base) in
   rdo ex <- rmap_all (expand_tm (S (length d)) nb) (dedup_first (tm_ids d));
